@@ -1178,7 +1178,8 @@ pub fn generate(kind: &str, seed: u64, count: usize, out: &str) {
         let a = steps[0]["tree"].clone();
         let empty = json!({"k": "raw", "sub": "str", "b": []});
         let cc = |ch: Vec<Value>| json!({"k": "concat", "mode": "boxed", "ch": ch});
-        let (lhs, rhs) = match g.rng.gen_range(0..14) {
+        let pick = g.rng.gen_range(0..17);
+        let (lhs, rhs) = match pick {
           0 => (cc(vec![a.clone(), b.clone(), c.clone()]),
                 json!({"k": "concat", "mode": "typed", "ch": [cc(vec![a, b]), cc(vec![c])]})),
           1 => (cc(vec![a.clone(), b.clone(), c.clone()]), cc(vec![cc(vec![a, b]), c])),
@@ -1203,14 +1204,26 @@ pub fn generate(kind: &str, seed: u64, count: usize, out: &str) {
           }
           11 => (a.clone(), json!({"k": "cached", "cid": 99, "inner": a})),
           12 => (a.clone(), json!({"k": "box", "inner": a})),
-          _ => (cc(vec![a.clone(), b.clone()]),
+          13 => (cc(vec![a.clone(), b.clone()]),
                 cc(vec![json!({"k": "cached", "cid": 98, "inner": a}), json!({"k": "box", "inner": b})])),
+          // a wrapper in the middle: what follows it is placed after the end the wrapper reports
+          14 => (cc(vec![a.clone(), b.clone(), c.clone()]),
+                cc(vec![a, json!({"k": "cached", "cid": 97, "inner": b}), c])),
+          15 => (cc(vec![cc(vec![a.clone(), empty.clone()]), c.clone()]),
+                cc(vec![json!({"k": "cached", "cid": 96, "inner": cc(vec![a, empty])}), c])),
+          _ => (cc(vec![cc(vec![a.clone(), b.clone(), empty.clone()]), c.clone()]),
+                cc(vec![json!({"k": "cached", "cid": 95, "inner": cc(vec![a, b, empty])}), c])),
         };
         steps = vec![json!({"op": "build", "dst": 0, "tree": lhs})];
         steps.extend(obs_all(0));
         steps.push(json!({"op": "build", "dst": 1, "tree": rhs}));
         steps.extend(obs_all(1));
         steps.push(json!({"op": "law", "law": "same", "a": 0, "b": 1}));
+        if matches!(pick, 11 | 13..) {
+          // the second answer of a CachedSource is replayed from what the first stored
+          steps.extend(obs_all(1));
+          steps.push(json!({"op": "law", "law": "same", "a": 0, "b": 1}));
+        }
       }
       "identity" | "edit_pairs" => {
         let t = steps[0]["tree"].clone();
